@@ -34,7 +34,12 @@ def main(argv):
     # the bounded graph-search unit is built only on request: its unwinding (recursion x loops over
     # pointer-carrying iterators) does not finish within the time budget yet (DESIGN 3/C18)
     with_search = os.environ.get("VERIF_C18_SEARCH") == "1"
-    c.units = [cache, search] if with_search else [cache]
+    # the depth-first search under its own contract (induction step + entry point): specs/C18/search.h
+    dfs = UnitSpec("dfs", ["variable.cpp"], [("variable.cpp", "libcellml::haveEquivalentVariables"),
+                                             ("variable.cpp", "libcellml::Variable::VariableImpl::hasIndirectEquivalentVariable")],
+                   string_model="sid", models=("exact.h", "sidstr.h"), spec_header="specs/C18/search.h", harness_file="specs/C18/search_harness.c",
+                   rec_stubs=["haveEquivalentVariables"])
+    c.units = [cache, dfs] + ([search] if with_search else [])
     nv = 4 if c.tier == "quick" else 5
     D = {"HEAP_N": 6, "VMAP_CAP": 3}
     DS = {"HEAP_N": nv + 1, "VVEC_CAP": nv + 1, "NV": nv}
@@ -50,12 +55,27 @@ def main(argv):
                                   "queried before, in either order, and when repeated (complete for the 2-query lemma, "
                                   "which covers all histories because emplace never overwrites)")),
     ]
+    nvd = 4 if c.tier == "quick" else 5
+    DD = {"HEAP_N": nvd + 1, "REF_T": "unsigned", "VVEC_CAP": 6, "MAXW": 3}
+    getters = ["Variable_equivalentVariableCount", "Variable_equivalentVariable"]
+    bd = "<= %d variables, <= 3 equivalent variables each (any lists, cycles included)" % nvd
+    c.harnesses += [
+        ("dfs", Harness("h_search_step", "B", enforce="haveEquivalentVariables", replace=getters + ["haveEquivalentVariables__rec"], unwind=nvd + 3, defines=DD,
+                        backend="kissat|z3", timeout=2400, object_bits=12, bound=bd + "; recursion = the function's own contract (induction on the untested variables)",
+                        carries="haveEquivalentVariables: true only if the target is reachable; false leaves every variable it added with all its equivalent variables "
+                                "tested and none of them the target (depth-first-search contract) - BOUNDED width, inductive in depth")),
+        ("dfs", Harness("h_search_entry", "B", replace=getters + ["haveEquivalentVariables"], unwind=nvd + 3, defines=DD, backend="kissat|z3", timeout=1200, object_bits=12, bound=bd,
+                        carries="hasIndirectEquivalentVariable(v) (= hasEquivalentVariable(v, true)): true EXACTLY when v reaches this variable along equivalence lists, "
+                                "by the search contract from an empty tested list - BOUNDED")),
+    ]
     if with_search:
         c.harnesses += [("search", Harness("h_search_utility", "B", unwind=nv + 2, defines=DS, backend="sat", timeout=1500,
                            bound="connection graphs over <= %d variables, every symmetric adjacency" % nv,
                            carries="true exactly when the two variables are linked by a chain of equivalences (graph search), BOUNDED"))]
     c.trusted_base = [
         "exact bounded models of std::map / std::vector (models/exact.h)",
+        "dfs unit: the equivalence lists are ghost tables read through contract stubs of equivalentVariable(i)/equivalentVariableCount(); reachability is computed "
+        "independently in the harness (HEAP_N rounds of relaxation)",
         "the uncached utility is an arbitrary symmetric relation containing identity in the cache harness (symmetry of "
         "equivalence lists is C09's invariant)",
         "object addresses: an arbitrary injective map from objects to 16-byte-aligned 47-bit values in h_cache_two_queries; "
@@ -66,8 +86,9 @@ def main(argv):
                      "inputs on C lowered from AnalyserModel::areEquivalentVariables and its key helper: complete decisions (kind F). "
                      "The graph search (haveEquivalentVariables and its callers, lowered from variable.cpp/utilities.cpp) is checked "
                      "against reachability on every symmetric graph over a BOUNDED number of variables (kind B, not counted as proved).")
-    c.not_covered = ["the graph search itself (haveEquivalentVariables and callers): lowered, but its bounded check does not finish "
-                     "in the time budget and is NOT run; the uncached utility is a symmetric-relation stub here", "callers in analyser.cpp/generator.cpp that consume the answer"]
+    c.not_covered = ["the search with real recursion unwound end to end (does not finish; the inductive contract proof replaces it)",
+                     "utilities.cpp areEquivalentVariables / Variable::hasEquivalentVariable wrappers around hasIndirectEquivalentVariable (one-line forwards)",
+                     "callers in analyser.cpp/generator.cpp that consume the answer"]
     exe = {}
 
     def build_replay(chk):
@@ -80,6 +101,12 @@ def main(argv):
         chk.native_facts.append(("hook verifEquivalentVariablesCacheKey reachable in the library built from /repo (guard on)", ok, out.strip()))
         if not ok:
             raise Undecided("C18 hook does not answer as expected: %s %s" % (out, err[-300:]))
+        rc, out, err, _ = run([exe["x"], "search", str(chk.seed), "3000" if chk.tier == "quick" else "60000"], timeout=900)
+        if "SEARCH" not in out:
+            out = "SEARCH violates=1 what=the real code terminated abnormally rc=%s %s" % (rc, (err or "")[-200:].replace("\n", " "))
+        chk.search_out = out.strip()
+        chk.native_facts.append(("native random equivalence networks (2-7 variables, cycles): hasEquivalentVariable(w, true) for every ordered pair, shuffled and repeated, "
+                                 "equals reachability computed from the equivalence lists", "violates=0" in out, out.strip()[-300:]))
 
     c.pre_steps = [build_replay]
 
@@ -88,6 +115,12 @@ def main(argv):
             vals = [ce.get("in_" + k) for k in "abcd"]
         elif h.name == "h_cache_two_queries":
             vals = [ce.get("ce_" + k) for k in "abcd"]
+        elif h.name in ("h_search_step", "h_search_entry"):
+            out = getattr(chk, "search_out", "")
+            m = re.search(r"SEARCH violates=1 what=(.*)", out)
+            if m:
+                return True, "real code: " + m.group(1)[:500], "search", {"search": out[:1000]}
+            return None, "the native random networks found no wrong answer (seed %d)" % chk.seed, None, {}
         else:
             return None, "no native replay for the bounded graph-search harness", None, {}
         if any(v is None for v in vals):
@@ -100,6 +133,9 @@ def main(argv):
         return m.group(3) == "1", out.strip(), tag, {"addresses": vals}
 
     c.replayers["*"] = replay
+    # a changed signature of the search leaves the added parameters unconstrained in the induction-step harness (CALLN wrapper): a failure then
+    # counts only when the native networks reproduce a wrong answer
+    c.replay_required = lambda h, o: h.name == "h_search_step" and len(getattr(c.built["dfs"].lowered.funcs.get("haveEquivalentVariables"), "params", [0, 0, 0])) != 3
     if getattr(c, "replay_file", None):
         import json
         r = json.load(open(c.replay_file))
